@@ -5,7 +5,6 @@ package core
 import (
 	"fmt"
 	"math/rand"
-	"os"
 	"testing"
 
 	v1 "k8s.io/api/core/v1"
@@ -193,9 +192,9 @@ func vtC02DimGen(r *rand.Rand, i int) (string, []int64) {
 	shape := []string{"flat", "two", "two", "three"}[r.Intn(4)]
 	K := 3 + r.Intn(3)
 	gate := r.Intn(2) == 0 // ElasticQuotaGuaranteeUsage
-	// the seeded-finding shape (DeleteQuota of a quota below a parent quota with the gate on) is only generated
-	// once it is registered in known_findings.txt (props/C02.json sets VERIF_C02_GUAR_DELETE then)
-	deepDelete := !gate || os.Getenv("VERIF_C02_GUAR_DELETE") == "1"
+	// DeleteQuota of a quota below a parent quota with the gate on (the shape of the repaired
+	// findings/C02-delete-keeps-guarantee.md) is generated like any other deletion
+	const deepDelete = true
 	palC := make([]int64, 4+r.Intn(3))
 	palM := make([]int64, 4+r.Intn(3))
 	for j := range palC {
